@@ -256,6 +256,11 @@ class Exec(Engine):
         acc, excs = self.ev_list([e.left] + list(e.comparators), st)
         out = list(excs)
         for s, vals in acc:
+            if len(e.ops) == 1 and hasattr(self.world, 'compare_objects'):
+                r = self.world.compare_objects(self, s, e.ops[0], vals[0], vals[1])
+                if r is not None:
+                    out.append(r)
+                    continue
             ts = []
             for k, op in enumerate(e.ops):
                 ts.append(self.compare(s, op, vals[k], vals[k + 1]))
@@ -607,9 +612,9 @@ class Exec(Engine):
         key = '%s::%s' % (fv.rel, fv.qualname)
         c = self.registry.get(key)
         self_val = getattr(fv, 'self_val', None)
-        if c is not None and not c.inline and not (self.cur is not None and c.key == self.cur.key and False):
+        if c is not None and not c.inline and not c.extra.get('inline_at_calls'):
             return self.call_contract(st, c, fv.node, args, kwargs, node, starv, dstar, self_val)
-        if c is not None and c.inline or self.world.may_inline(fv):
+        if c is not None and (c.inline or c.extra.get('inline_at_calls')) or self.world.may_inline(fv):
             self.inlined.add(key)
             return self.call_inline(st, fv.node, self.world.def_env(self, st, fv), args, kwargs, node,
                                     starv, dstar, self_val, qual=fv.qualname)
@@ -627,44 +632,68 @@ class Exec(Engine):
         for k, req in enumerate(c.requires):
             self.oblige(pre, 'call-pre/%s.%d' % (c.qualname, k), self.sbool(req, pre), line)
         out = []
-        # normal return
-        post = pre.copy()
-        post.old = pre.snapshot()
-        self.havoc_modifies(post, c.modifies)
-        result = None
-        if c.returns:
-            result = self.make_input(post, 'ret_' + c.qualname.replace('.', '_'), c.returns)
-            post.env['result'] = result
-        else:
-            if any('result' in e for e in c.ensures):
-                raise EngineError('%s: the contract speaks about `result` but declares no `returns` type' % c.key)
-            post.env['result'] = NONE
-        for ens in c.ensures:
-            post.assume(self.sbool(ens, post))
-        if self.feasible(post):
-            res_val = post.env.get('result', NONE)
-            post.env = dict(caller_env)
-            post.old = st.old
-            out.append(Result(post, res_val))
+        # normal return; `returns` may list alternatives separated by '|': 'Alias[expr]' (the result is that
+        # existing object) or a type (a fresh value)
+        alts = [a.strip() for a in c.returns.split('|')] if c.returns else [None]
+        for alt in alts:
+            post0 = pre.copy()
+            post0.old = pre.snapshot()
+            for post in self.havoc_modifies(post0, c.modifies):
+                if alt is None:
+                    if any('result' in e for e in c.ensures):
+                        raise EngineError('%s: the contract speaks about `result` but declares no `returns` type' % c.key)
+                    post.env['result'] = NONE
+                elif alt.startswith('Alias[') and alt.endswith(']'):
+                    post.env['result'] = self.sev(alt[6:-1], post)
+                else:
+                    post.env['result'] = self.make_input(post, 'ret_' + c.qualname.replace('.', '_'), alt)
+                for ens in c.ensures:
+                    post.assume(self.sbool(ens, post))
+                if self.feasible(post):
+                    res_val = post.env.get('result', NONE)
+                    post.env = dict(caller_env)
+                    post.old = st.old
+                    out.append(Result(post, res_val))
         for exc_name, conds in c.raises.items():
-            ex = pre.copy()
-            ex.old = pre.snapshot()
-            self.havoc_modifies(ex, c.modifies)
-            for cnd in conds:
-                ex.assume(self.sbool(cnd, ex))
-            if self.feasible(ex):
-                ex.env = dict(caller_env)
-                ex.old = st.old
-                out.append(self.exc(ex, exc_name))
+            ex0 = pre.copy()
+            ex0.old = pre.snapshot()
+            for ex in self.havoc_modifies(ex0, c.modifies):
+                for cnd in conds:
+                    ex.assume(self.sbool(cnd, ex))
+                if self.feasible(ex):
+                    ex.env = dict(caller_env)
+                    ex.old = st.old
+                    out.append(self.exc(ex, exc_name))
         return out
 
     def havoc_modifies(self, st, modifies):
+        """havoc the callee's frame in `st`.  Conditional entries (cond, path) are havoced only under cond: the
+        state is refined by a case split, so the caller keeps what the callee provably leaves alone.
+        Returns the list of resulting states."""
+        states = [st]
         for m in modifies:
-            self.havoc_path(st, m)
+            if isinstance(m, tuple):
+                cond, path = m
+                nxt = []
+                for s in states:
+                    yes, no = self.fork(s, self.sbool(cond, s))
+                    for y in yes:
+                        self.havoc_path(y, path)
+                        nxt.append(y)
+                    nxt.extend(no)
+                states = nxt
+            else:
+                for s in states:
+                    self.havoc_path(s, m)
+        return states
 
     def havoc_path(self, st, path):
         """'x.f[*]' contents of array/dict; 'x.f' rebinding of a field (fresh object
-        of the same shape); 'x[*]' contents of the node x refers to"""
+        of the same shape); 'x[*]' contents of the node x refers to; 'x.*' every field of object x"""
+        if path.endswith('.*'):
+            ref = self.sev(path[:-2], st)
+            self.havoc_node(st, ref)
+            return
         contents = path.endswith('[*]')
         p = path[:-3] if contents else path
         e = ast.parse(p, mode='eval').body
@@ -748,6 +777,8 @@ class Exec(Engine):
                 return st.alloc(Obj(n.cls, {kk: self.fresh_like(st, vv, kk) for kk, vv in n.fields.items()}))
         if k in ('mod', 'exc', 'range', 'dictval', 'inner'):
             return v
+        if k == 'ghost':
+            return type(v)(fresh(name, v.term.sort()))
         raise EngineError('cannot havoc a value of kind %s' % k)
 
     # ------------------------------------------------------------------
@@ -1417,6 +1448,9 @@ class Exec(Engine):
         entry = st
         results = self.exec_block(fnode.body, st.copy())
         self.stats['paths'] += len(results)
+        if not any(r.flow in ('normal', 'return') for r in results) and not c.extra.get('never_returns'):
+            raise EngineError('%s: no normal exit is reachable (an assumed callee contract is infeasible here, or the '
+                              'precondition is contradictory)' % c.key)
         for r in results:
             if c.kind == 'contextmanager':
                 self.check_contextmanager_exit(c, r, fnode, entry)
@@ -1427,6 +1461,8 @@ class Exec(Engine):
                 post.env['result'] = r.val if r.val is not None else NONE
                 for k, ens in enumerate(c.ensures):
                     self.oblige(post, 'post%d' % k, self.sbool(ens, post), fnode.lineno)
+                for k, ens in enumerate(c.internal):
+                    self.oblige(post, 'internal%d' % k, self.sbool(ens, post), fnode.lineno)
                 self.frame_obligations(c, entry, post, fnode)
                 # vacuity sentinel: must NOT be provable
                 self.oblige(post, 'sentinel/exit-reachable', z3.BoolVal(False), fnode.lineno)
@@ -1481,44 +1517,56 @@ class Exec(Engine):
     def frame_obligations(self, c, entry, post, fnode, tag=''):
         """every heap node reachable from the entry state and not covered by
         `modifies` has unchanged contents"""
-        allowed_nodes, allowed_fields = set(), set()
+        allowed_nodes, allowed_fields, allowed_objs = {}, {}, {}
+
+        def allow(table, key, cond):
+            table[key] = z3.Or(table[key], cond) if key in table else cond
         for m in c.modifies:
+            cond = z3.BoolVal(True)
+            if isinstance(m, tuple):
+                cond, m = self.sbool(m[0], entry), m[1]
+            if m.endswith('.*'):
+                v = self.sev(m[:-2], entry)
+                if v.kind == 'ref':
+                    allow(allowed_objs, v.nid, cond)
+                continue
             contents = m.endswith('[*]')
             p = m[:-3] if contents else m
             e = ast.parse(p, mode='eval').body
-            try:
-                if contents:
-                    v = self.sev(e, entry)
-                    if v.kind == 'ref':
-                        allowed_nodes.add(v.nid)
-                    elif v.kind == 'inner':
-                        allowed_nodes.add(v.ref.nid)
-                elif isinstance(e, ast.Attribute):
-                    b = self.sev(e.value, entry)
-                    allowed_fields.add((b.nid, e.attr))
-            except EngineError:
-                raise
+            if contents:
+                v = self.sev(e, entry)
+                if v.kind == 'ref':
+                    allow(allowed_nodes, v.nid, cond)
+                elif v.kind == 'inner':
+                    allow(allowed_nodes, v.ref.nid, cond)
+            elif isinstance(e, ast.Attribute):
+                b = self.sev(e.value, entry)
+                allow(allowed_fields, (b.nid, e.attr), cond)
         for nid, n0 in entry.heap.items():
             n1 = post.heap.get(nid)
             if n1 is n0 or n1 is None:
                 continue
             if isinstance(n0, Arr):
-                if nid in allowed_nodes:
+                if z3.is_true(allowed_nodes.get(nid, z3.BoolVal(False))):
                     continue
                 if n1.a is n0.a and n1.n is n0.n:
                     continue
                 k = fresh('k', I)
                 goal = z3.And(n1.n == n0.n, z3.ForAll([k], z3.Implies(z3.And(0 <= k, k < n0.n), n1.a[k] == n0.a[k])))
+                goal = z3.Or(allowed_nodes.get(nid, z3.BoolVal(False)), goal)
                 self.oblige(post, '%sframe/array-%s' % (tag, self.node_name(entry, nid)), goal, fnode.lineno)
             elif isinstance(n0, Dict):
-                if nid in allowed_nodes:
+                if z3.is_true(allowed_nodes.get(nid, z3.BoolVal(False))):
                     continue
                 goal = self.equal(post, VRef(nid), _in_state(entry, VRef(nid), self, post))
+                goal = z3.Or(allowed_nodes.get(nid, z3.BoolVal(False)), goal)
                 self.oblige(post, '%sframe/dict-%s' % (tag, self.node_name(entry, nid)), goal, fnode.lineno)
             elif isinstance(n0, Obj):
                 for f, v0 in n0.fields.items():
                     v1 = n1.fields.get(f)
-                    if v1 is v0 or (nid, f) in allowed_fields:
+                    ok = z3.simplify(z3.Or(allowed_fields.get((nid, f), z3.BoolVal(False)),
+                                           allowed_objs.get(nid, z3.BoolVal(False))))
+                    if v1 is v0 or z3.is_true(ok):
                         continue
                     if v0 is None or v1 is None:
                         continue
@@ -1526,6 +1574,7 @@ class Exec(Engine):
                         goal = self.same_value(post, v0, v1)
                     except EngineError:
                         goal = z3.BoolVal(False)
+                    goal = z3.Or(ok, goal)
                     self.oblige(post, '%sframe/field-%s.%s' % (tag, self.node_name(entry, nid), f), goal, fnode.lineno)
 
     def same_value(self, st, v0, v1):
